@@ -21,9 +21,10 @@
 import Pk.Model.Manager
 import Pk.Props.C13
 import Pk.Proofs.MgrViews
+import Pk.Proofs.MgrViewsCover
 
 namespace Pk.Props.C10
-open Pk.Mgr
+open Pk.Mgr Pk.Proofs.MgrViews
 
 /-- stream ids stored in file `f` -/
 def content (s : St) (f : Nat) : List Nat := (nget s.files f).getD []
@@ -38,7 +39,34 @@ def enumerate (files : List (List Nat)) : List Nat :=
 /-- every id stored in some file is enumerated, nothing else is, and nothing twice -/
 theorem enumeration_exact (files : List (List Nat)) (hnd : ∀ ids ∈ files, ids.Nodup) :
     (enumerate files).Nodup ∧ ∀ id, id ∈ enumerate files ↔ ∃ ids ∈ files, id ∈ ids := by
-  sorry
+  induction files with
+  | nil => simp [enumerate]
+  | cons ids newer ih =>
+    obtain ⟨ihn, ihm⟩ := ih (fun x hx => hnd x (List.mem_cons_of_mem _ hx))
+    have hids : ids.Nodup := hnd ids List.mem_cons_self
+    unfold enumerate
+    constructor
+    · rw [List.nodup_append]
+      refine ⟨ihn, hids.filter _, ?_⟩
+      intro a ha b hb hab
+      subst hab
+      obtain ⟨x, hx, hax⟩ := (ihm a).mp ha
+      simp only [List.mem_filter, Bool.not_eq_eq_eq_not, Bool.not_true, List.any_eq_false,
+        List.contains_iff_mem] at hb
+      exact hb.2 x hx hax
+    · intro id
+      simp only [List.mem_append, List.mem_filter, ihm, List.mem_cons, Bool.not_eq_eq_eq_not,
+        Bool.not_true, List.any_eq_false, List.contains_iff_mem]
+      constructor
+      · rintro (⟨x, hx, hix⟩ | ⟨hi, _⟩)
+        · exact ⟨x, Or.inr hx, hix⟩
+        · exact ⟨ids, Or.inl rfl, hi⟩
+      · rintro ⟨x, hx | hx, hix⟩
+        · subst hx
+          by_cases h : ∃ y ∈ newer, id ∈ y
+          · exact Or.inl h
+          · exact Or.inr ⟨hix, fun y hy hiy => h ⟨y, hy, hiy⟩⟩
+        · exact Or.inl ⟨x, hx, hix⟩
 
 /-- every stream id handed out so far is stored in some served file -/
 def Covered (s : St) : Prop := ∀ id, id < s.next → ∃ f ∈ s.idx, id ∈ content s f
@@ -62,23 +90,51 @@ def EvOK (s : St) : Ev → Prop
 def ImportJobInv (s : St) : Prop := ∀ jn held, s.jImport = some (jn, held) → jn = s.next
 
 theorem importJobInv_step (s : St) (e : Ev) (st : Started) (h : ImportJobInv s) :
-    ImportJobInv (step s e st).1 := by
-  sorry
+    ImportJobInv (step s e st).1 :=
+  jinv_step s e st h
 
 theorem cover_step (s : St) (e : Ev) (st : Started) (hc : Covered s) (hl : C13.CountInv s)
     (hok : EvOK s e) : Covered (step s e st).1 := by
-  sorry
+  have hc' : Cov s := hc
+  show Cov (step s e st).1
+  cases e with
+  | importDone a b c d e' f =>
+    refine step_importDone s st a b c d e' f Cov hc' (fun jn held fin hj hf => cov_frame hf ?_)
+    obtain ⟨hfr, hjob⟩ := hok
+    obtain ⟨hjn, _, hnew⟩ := hjob jn held hj
+    exact cov_importBase s jn held b c _ _ _ hc' (holds_jImport hl hj) hfr.1
+      (fun o ho => (hfr.2 o ho).2) hjn hnew
+  | tagDone a b =>
+    exact step_tagDone s st a b Cov (fun s' hf => cov_frame hf hc')
+      (fun jn snap held mid hj hf => cov_frame_release held hf hc' (holds_jTag hl hj).lt)
+  | mergeDone m =>
+    refine step_mergeDone s st m Cov hc' (fun off held mid hj hf => ?_)
+    obtain ⟨hfr, hjob⟩ := hok
+    obtain ⟨hheld, hids⟩ := hjob off held hj
+    obtain ⟨h1, h2⟩ := cov_mergeBase s off held m hc' (holds_jMerge hl hj) hfr.1 hfr.2 hheld hids
+    exact cov_frame_release held hf h1 h2.lt
+  | convertDone =>
+    exact step_convertDone s st Cov (fun s' hf => cov_frame hf hc')
+      (fun sets held mid hj hf => cov_frame_release held hf hc' (holds_jConv hl hj).lt)
+  | viewRelease k =>
+    simp -zeta only [step]
+    split
+    · exact hc'
+    · rename_i fs hv
+      exact cov_release fs (m := { s with views := ndel s.views k }) hc' (holds_view hl hv).lt
+  | _ =>
+    exact cov_frame (frame_step_other s _ st (by simp) (by simp) (by simp) (by simp) (by simp)) hc'
 
 /-- the list of files a view captured is not changed by any later event except its own release -/
 theorem view_held_stable (s : St) (e : Ev) (st : Started) (k : Nat) (fs : List Nat)
     (hv : nget s.views k = some fs) (hne : e ≠ .viewRelease k) :
-    nget (step s e st).1.views k = some fs := by
-  sorry
+    nget (step s e st).1.views k = some fs :=
+  views_step s e st k fs hv hne
 
 /-- … and every file of an open view stays open (on disk) — by C13 -/
 theorem view_files_open (s : St) (h : C13.CountInv s) (k : Nat) (fs : List Nat)
-    (hv : nget s.views k = some fs) (f : Nat) (hf : f ∈ fs) : (nget s.files f).isSome = true := by
-  sorry
+    (hv : nget s.views k = some fs) (f : Nat) (hf : f ∈ fs) : (nget s.files f).isSome = true :=
+  Pk.Proofs.MgrViews.view_files_open h hv hf
 
 /-! ### non-vacuity -/
 example : enumerate [[0, 1], [1, 2], [0, 3]] = [0, 3, 1, 2] := by decide
